@@ -8,9 +8,9 @@ def run(ctx):
     jobs = []
     for variant in ("asan", "plain", "tsan"):
         exe = build.driver(variant, "c09_sockdata", ["c09_sockdata.c", "wrap_sys.c"], wraps=build.WRAPS_ALL)
-        n = (4 if q else 24) if variant != "tsan" else (1 if q else 4)
+        n = (4 if q else 16) if variant != "tsan" else (1 if q else 4)
         for i in range(n):
-            cmd = [exe, "--tcp", str(8 if q else 40), "--udp", str(4 if q else 16), "--dgrams", str(200 if q else 1500), "--bulk", str((1 << 20) if q else (32 << 20)), "--seed", str(ctx.seed * 100 + i)]
+            cmd = [exe, "--tcp", str(8 if q else 24), "--udp", str(4 if q else 12), "--dgrams", str(200 if q else 1000), "--bulk", str((1 << 20) if q else (8 << 20)), "--seed", str(ctx.seed * 100 + i)]
             if i:
                 cmd.append("--no-peer-gone")
             job = dict(cmd=cmd, variant=variant, tag="%s seed%d" % (variant, i), san_ctx="socket-data", hang_is_violation=True, hang_key="symptom=hang")
